@@ -499,7 +499,7 @@ fn rule_text(prop: &str) -> &'static str {
         "C13" => "one MapViews scenario per index: a real file of 1-6 concatenated mappable structures, mapped; views at every structure offset, at 6 offsets outside the file, and on EVERY 8-byte truncation of the file (exhaustive per file). An execution is one (file, truncation) mapping; distinct = distinct (cut position, file length, structure cut, structure count).",
         "C14" => "per index one structure or writer history; EVERY fault point is then executed: every byte position 0..size for load/skip truncation, read error, write error and Ok(0) sinks; every file-size limit, open, seek and write call for the writers; every 8-byte cut for mapped files. evaluations counts executions (one per fault point); distinct = distinct I/O signatures among them (every execution has a fault that fired).",
         "C18" => "one MapLife scenario per index: 1-3 files (sizes around page boundaries, empty, odd, missing, sparse) and a history of map / read / write / drop with several maps alive, mmap refusal injected on chosen calls; /proc/self/maps checked after every step. distinct = distinct hash of the sequence of (op, mode, refusal, file class).",
-        "C20" => "per index one NameVolume scenario: 2-5 REAL threads with 1..300000 calls each (thread-local or per-thread state is real here, unlike under shuttle); a token decides which thread runs, handing over after a prescribed number of calls, so exactly one thread is runnable and the interleaving is the prescribed one. distinct = distinct (call-volume classes per thread, hand-over class).",
+        "C20" => "per index one NameVolume scenario: 2-5 REAL threads with 1..300000 calls each (thread-local or per-thread state is real here, unlike under shuttle); the scenario is an explicit schedule of steps (thread t makes k calls); a thread is spawned at its first step and joined right after its last one (thread-local destructors have run before the next step), so exactly one thread is runnable and the run replays exactly. distinct = distinct (call-volume class per thread, schedule length class, late start, exit while others alive).",
         "C19" => "per index a Supports history (enable_* / write / load / clone over a bitvector with an initial support subset), a Foreign file (composite written without support structures) or a Skip stream (prefix, Option<X>, sentinel). distinct = distinct I/O signature where a short read / EINTR fired, else distinct history shape.",
         _ => "",
     }
@@ -509,7 +509,7 @@ fn real_vs_stub(prop: &str) -> serde_json::Value {
     match prop {
         "C06" | "C19" => json!({"real": ["all serialize/load/skip/enable code of simple-sds", "library constructors"], "stub": ["the byte stream (SimReader/SimWriter)", "the file system behind serialize_to/load_from (SimFs via verif_io)", "C19: the foreign composer that strips support structures"]}),
         "C12" => json!({"real": ["RawVectorWriter", "IntVectorWriter", "RawVector/IntVector serialization (the oracle the statement names)"], "stub": ["std::fs::File/OpenOptions replaced by SimFs through the verif_io seam; a sample of scenarios is re-run on the real file system"]}),
-        "C20" => json!({"real": ["serialize::temp_file_name with the std atomic", "real OS threads"], "stub": ["the scheduler: a token ring decides which thread runs"]}),
+        "C20" => json!({"real": ["serialize::temp_file_name with the std atomic", "real OS threads"], "stub": ["the scheduler: the harness thread starts, runs and joins the threads step by step"]}),
         "C13" | "C18" => json!({"real": ["MemoryMap, all MemoryMapped views", "kernel mmap/munmap", "real files"], "stub": ["only the injected MAP_FAILED (C18)"]}),
         "C14" => json!({"real": ["all library code", "kernel mmap for the torn-file clause"], "stub": ["byte streams", "SimFs for the writers"]}),
         _ => json!({}),
@@ -532,9 +532,9 @@ fn expected_probes(prop: &str) -> Vec<&'static str> {
         "C12" => vec!["flush with carried overflow", "flush with exactly full buffer", "final flush of an empty buffer", "zero pushes", "width 64", "push_int(_, 0)", "dropped while open", "close() called again after success", "buffer size 0", "parent header (close_with_header)", "real file system cross-check", "longer file already present"],
         "C13" => vec!["empty or tiny structure at end of file", "option holding an empty structure", "truncation exactly after a length element", "truncation inside a structure", "offsets outside the file requested"],
         "C14" => vec!["fault exactly on an element boundary", "fault inside an element", "skip: fault after the length element", "sink fails on the first byte", "sink fails in the last element", "failure reported by a panicking push", "failure reported by close()", "failure reported by the constructor", "fault in a header write", "fault in a body write", "truncation inside a structure", "close() asked again after a reported failure"],
-        "C18" => vec!["several maps alive at once", "write through a mutable map", "file checked after dropping a mutable map", "map creation failed loudly", "map dropped"],
-        "C20" => vec!["a thread with more than 65536 calls", "strict alternation between real threads", "threads run to completion one after another"],
-        "C19" => vec!["two or more write/load steps in one history", "empty bitvector", "support structures actually removed", "skip over a 3-level nested option", "skip over None", "EINTR while skipping or loading", "skip over a bitvector with supports", "absent_option written"],
+        "C18" => vec!["several maps alive at once", "write through a mutable map", "file checked after dropping a mutable map", "map creation failed loudly", "map dropped", "file grown while a map of it is alive"],
+        "C20" => vec!["a thread with more than 65536 calls", "a thread started while others were already running", "a thread exited while others were still alive", "three or more threads alive at once"],
+        "C19" => vec!["two or more write/load steps in one history", "empty bitvector", "support structures actually removed", "foreign file loaded through load_from", "skip over a 3-level nested option", "skip over None", "EINTR while skipping or loading", "skip over a bitvector with supports", "absent_option written"],
         _ => vec![],
     }
 }
